@@ -51,7 +51,7 @@ func main() {
 				sparams[k] = v
 			}
 		}
-		sol := NewSolver("z3", 10000)
+		sol := NewSolver(envOr("QSYM_SOLVER", "z3"), 10000)
 		defer sol.Close()
 		ex := NewExec(P.prog, sol)
 		ex.params, ex.sparams = params, sparams
